@@ -501,6 +501,7 @@ CONTRACTS = [
       ensures={"wf": "wf(self)", "V": "all(n not in V(self) for n in Node)", "E": "all(k not in E(self) for k in Tuple)",
                "weighted": "weighted(self) == weighted(old(self))"}),
     C("num_nodes", params={}, result="Int", pure=True, ensures={"result": "result == card(V(self))"}),
+    C("__len__", params={}, result="Int", pure=True, ensures={"result": "result == card(E(self))"}, properties=["C10"]),
     C("num_edges", params={"order": "Opt[Int]", "size": "Opt[Int]", "up_to": "Bool"}, result="Int", pure=True, locals={"s": "Int"},
       requires={"wf": "wf(self)"},
       raises={"ValueError": "order is not None and size is not None"},
